@@ -400,6 +400,10 @@ from . import shared
 RULES = RULES + shared.bundle('C08', ['values', 'stride', 'maxpd', 'driver'], ['details'])
 from . import folds as _folds
 RULES = RULES + [_folds.fold_rule('C08')]
+from . import c07 as _c07
+RULES = RULES + [("R-C08-component-scale", 8, "a P@S component honours its own scale and background slots (the mixture multiplies by X_scale_k on top)",
+                  shared._relabel(_c07.rule_formula, "R-C08-component-scale")),
+                 ("R-C08-component-norm", 12, "a plain component returns scale*<F^2>/<V> + background", shared._relabel(__import__("sa.rules.c01", fromlist=["x"]).rule_norm, "R-C08-component-norm"))]
 from .. import refs as _refs
 RULES = RULES + [_refs.ref_rule('C08')]
 
